@@ -34,7 +34,7 @@ REQUIRED = ['C14_filter_exact', 'C14_sort_sorted_perm', 'C14_filter_recomputed_s
             'C14_check_accepted_sound', 'C14_check_accepted_fast_sound', 'C14_filter_recomputed_drops_accepted_refuted', 'C14_prepare_seq_aliasing_refuted',
             'C14_prepare_snapshot_spec', 'C14_key_injective', 'C14_increasing_times_nodup', 'C14_one_record_per_step',
             'C14_add_to_stats_key', 'C14_add_to_stats_stale', 'C14_return_stats_last_wins', 'C14_get_list_of_types_spec',
-            'C14_tz_order']
+            'C14_tz_order', 'C14_add_hooks_spec']
 
 COQ_TYPES = ['niter', 'u', 'dt', 'restart', 'work_rhs', 'residual_post_iteration']
 
@@ -52,6 +52,10 @@ def gen_configs(rng, n):
         dict(problem='test', lam=-2.0, levels=2, dt=0.1, maxiter=3, e_tol=None, procs=4, Tend=1.0, script=[(0, 1)]),
         dict(problem='vdp', lam=2.0, levels=2, dt=0.1, maxiter=4, e_tol=None, procs=2, Tend=0.5, script=[(0, 1), (1, 0), (2, 1)]),
         dict(problem='test', lam=-1.0, levels=1, dt=0.1, maxiter=3, e_tol=None, procs=1, Tend=0.5, script=[(1, 0), (2, 0), (3, 0)]),
+        # the user asks for a shipped SUBCLASS of a hook that the error estimator registers itself; LogRestarts / LogStepSize /
+        # LogEmbeddedErrorEstimate are left to the convergence controllers (BasicRestarting, Adaptivity, EstimateEmbeddedError)
+        dict(problem='vdp', lam=2.0, levels=1, dt=0.1, maxiter=3, e_tol=1e-4, procs=1, Tend=0.5, post_iter_hook=True, lean_hooks=True),
+        dict(problem='test', lam=-5.0, levels=1, dt=0.2, maxiter=3, e_tol=3e-4, procs=2, Tend=0.6, post_iter_hook=True, lean_hooks=True),
     ]
     while len(cfgs) < n:
         procs = rng.choice([1, 2, 2, 3, 3, 4])
@@ -80,6 +84,8 @@ def gen_configs(rng, n):
                     if rng.random() < 0.4:
                         script.add((b + 2, 0))
             c['script'] = sorted(script)
+        c['lean_hooks'] = rng.random() < 0.4
+        c['post_iter_hook'] = c['e_tol'] is not None and rng.random() < 0.5
         cfgs.append(c)
     return cfgs
 
@@ -155,6 +161,16 @@ def run(ck):
                   'impl_types': res['types'], 'impl_error': res['err']}
         # ---- oracle (independent specification) on the implementation's output
         orc_bad = None
+        side_bad = False
+        for call, msg in res['raised']:
+            helper = call.split('(')[0]
+            ck.violation('%s raised %s' % (call, msg), dict(replay, call=call, exception=msg), match={'kind': 'helper_raises', 'helper': helper})
+            side_bad = True
+        for what in res['mutated']:
+            helper = what.split('(')[0]
+            ck.violation('helpers must not touch the statistics they are given: %s' % what, dict(replay, call=what),
+                         match={'kind': 'helper_mutates_stats', 'helper': helper})
+            side_bad = True
         if res['filter'] is not None and L.is_regular(items):
             sp = L.spec_filter_regular(items, kw, rec)
             if sp != res['filter']:
@@ -185,13 +201,13 @@ def run(ck):
         for k, _ in items:
             if k.type not in exp_types:
                 exp_types.append(k.type)
-        if exp_types != res['types']:
+        if res['types'] is not None and exp_types != res['types']:
             ck.violation('get_list_of_types is not the list of distinct types in order of first appearance', replay, match={'kind': 'get_list_of_types'})
             orc_bad = orc_bad or 'types'
         # ---- correspondence verdict of the kernel
         if v != (True, True, True):
             nbad += 1
-            if not orc_bad:
+            if not orc_bad and not side_bad:
                 which = [n for n, b in zip(('filter_stats', 'get_sorted', 'get_list_of_types'), v) if not b]
                 ck.violation('Coq model and implementation disagree on %s (oracle found nothing wrong on this input)' % ', '.join(which),
                              replay, match={'kind': 'correspondence', 'what': which[0]}, no_input=True)
@@ -392,9 +408,99 @@ def run(ck):
                          {'step_views': svs, 'impl': items_repr(d)}, match={'kind': 'correspondence', 'what': 'DefaultHooks.post_step'}, no_input=True)
     ck.obligation('DefaultHooks.post_step: model = implementation on %d step sequences' % len(dcases), nb == 0)
 
+    # ================================================================== 2d. Controller.add_hook: exact-class membership
+    class _Ctl(object):
+        """just enough of a controller for the unbound Controller.add_hook"""
+        def __init__(self):
+            self._Controller__hooks = []
+
+        @property
+        def hooks(self):
+            return self._Controller__hooks
+
+    def reg(classes):
+        c = _Ctl()
+        for k in classes:
+            Controller.add_hook(c, k)
+        return [type(h) for h in c.hooks]
+
+    acases = []
+    for _ in range(200 if thorough else 80):
+        # a random forest of hook classes: class i derives from Hooks or from an earlier class
+        fam = []
+        for i in range(rng.randint(2, 6)):
+            base = rng.choice([Hooks] + fam) if rng.random() < 0.7 else Hooks
+            fam.append(type('H%d' % i, (base,), {}))
+        reqs = [rng.randrange(len(fam)) for _ in range(rng.randint(1, 9))]
+        try:
+            got = [fam.index(t) for t in reg([fam[i] for i in reqs])]
+            err = None
+        except Exception as e:
+            got, err = [], '%s: %s' % (type(e).__name__, e)
+        parents = [(fam.index(f.__bases__[0]) if f.__bases__[0] in fam else None) for f in fam]
+        # oracle: every requested class is held exactly once (as that very class), in order of first request
+        want = []
+        for i in reqs:
+            if i not in want:
+                want.append(i)
+        ck.case(key=('add_hook', tuple(parents), tuple(reqs)), nontrivial=any(p is not None for p in parents))
+        if err is not None or got != want:
+            ck.violation('Controller.add_hook: a requested hook class is not registered exactly once (exact class) in request order'
+                         + (' (raised %s)' % err if err else ''),
+                         {'class_parents': parents, 'requests': reqs, 'registered': got, 'expected': want}, match={'kind': 'add_hook'})
+        acases.append((reqs, got, err))
+    txt = L.HEADER + 'Definition ac : list (list Z * list Z) := %s.\n' % coq_list(
+        ['(%s, %s)' % (coq_list([zlit(i) for i in reqs]), coq_list([zlit(i) for i in got])) for reqs, got, err in acases])
+    txt += "Eval vm_compute in map (fun '(r, g) => zlist_eqb (add_hooks r []) g) ac.\n"
+    rc, out = ck.coqc(ck.write_gen('AddHook.v', txt), timeout=600)
+    if rc != 0:
+        ck.obligation('add_hook cases evaluate', False, out[-1500:])
+        ck.violation('generated add_hook cases do not compile', {'log': out[-3000:]}, match={'kind': 'gen'}, no_input=True)
+        return
+    av = parse_coq_value(eval_outputs(out)[0])
+    ck.obligation('Controller.add_hook on random class hierarchies: model add_hooks = implementation on %d request sequences' % len(acases), all(av))
+    if not all(av) and not any(k.startswith('{"kind": "add_hook"') for k in seen):
+        reqs, got, err = [c for c, v in zip(acases, av) if not v][0]
+        ck.violation('Controller.add_hook differs from its model add_hooks', {'requests': reqs, 'registered': got},
+                     match={'kind': 'correspondence', 'what': 'add_hook'}, no_input=True)
+    # shipped hooks: every (subclass, base) pair of pySDC/implementations/hooks, both request orders
+    import importlib
+    import inspect
+    import pkgutil
+    import pySDC.implementations.hooks as hookpkg
+    shipped = {}
+    for m in pkgutil.iter_modules(hookpkg.__path__):
+        try:
+            mod = importlib.import_module('pySDC.implementations.hooks.' + m.name)
+        except Exception:
+            continue       # optional dependencies (plotting)
+        for name, obj in inspect.getmembers(mod, inspect.isclass):
+            if issubclass(obj, Hooks) and obj is not Hooks and obj.__module__ == mod.__name__:
+                shipped[name] = obj
+    pairs = [(a, b) for a in sorted(shipped) for b in sorted(shipped) if a != b and issubclass(shipped[a], shipped[b])]
+    npairs = 0
+    skipped = []
+    for sub, base in pairs:
+        for order in ((sub, base), (base, sub)):
+            try:
+                got = [t.__name__ for t in reg([shipped[n] for n in order])]
+            except Exception as e:     # hooks that cannot be instantiated without configuration (file loggers)
+                skipped.append('%s+%s: %s' % (order[0], order[1], type(e).__name__))
+                continue
+            npairs += 1
+            ck.case(key=('add_hook_shipped',) + order, nontrivial=True)
+            if got != list(order):
+                ck.violation('Controller.add_hook(%s) then add_hook(%s): registered %s — asking for a subclass must not make the base hook '
+                             '(its record types) disappear' % (order[0], order[1], got),
+                             {'call': 'Controller.add_hook', 'requests': list(order), 'registered': got},
+                             match={'kind': 'add_hook', 'shipped': True})
+    ck.cov['shipped_hook_subclass_pairs'] = ['%s<:%s' % p for p in pairs]
+    ck.cov['shipped_hook_pairs_checked'] = npairs
+    ck.cov['shipped_hook_pairs_skipped'] = skipped
+
     # ================================================================== 3. real runs
     import random
-    cfgs = gen_configs(random.Random('C14-runs:%d' % ck.seed), 60 if thorough else 14)
+    cfgs = gen_configs(random.Random('C14-runs:%d' % ck.seed), 60 if thorough else 16)
     agg = {}      # match-key -> (what, replay, match)
     run_infos = []
     coq_parts = []
@@ -421,8 +527,10 @@ def run(ck):
                 match = {'kind': f['kind'], 'cause': f['cause']}
                 if f['cause'] == 'stale_hook_counter':
                     match['hook'] = f['detail'].get('hook')
-            elif f['kind'] in ('key_num_restarts_stale', 'record_missing'):
+            elif f['kind'] in ('key_num_restarts_stale', 'record_missing', 'hook_not_registered', 'hook_registered_twice'):
                 match = {'kind': f['kind'], 'hook': f['detail'].get('hook')}
+            elif f['kind'] in ('helper_mutates_stats', 'helper_raises'):
+                match = {'kind': f['kind'], 'helper': f['detail'].get('helper')}
             else:
                 match = {'kind': f['kind']}
             mk = tuple(sorted(match.items(), key=str))
